@@ -61,7 +61,13 @@ def gen_cases(rng, tier):
         cls = "table"
         if any(e["closing"] != "open" for e in ents):
             cls = "table-closing" + ("" if alive else "-dead")
-        cases.append({"kind": "table", "cls": cls if n else "trivial", "alive": alive, "ents": ents})
+        case = {"kind": "table", "cls": cls if n else "trivial", "alive": alive, "ents": ents}
+        if n and rng.random() < 0.25:
+            # psutil.PROCFS_PATH re-assigned after the Process object was created: the other mount shows the
+            # same PID with the same descriptors but other offsets/flags (and all of them still open)
+            case["moved"] = {"pos": rng.choice([0, 999, 2 ** 40]), "flags": rng.choice([0o100002, 0o2001, 0o100000, 0o1])}
+            case["cls"] = cls + "-moved"
+        cases.append(case)
     # raw / malformed fdinfo
     for _ in range(n_tab // 3):
         content = rng.choice([b"", b"pos:\n", b"pos:\t5\n", b"pos:\t5\nflags:\n", b"pos:\tx\nflags:\t02\n",
@@ -97,7 +103,11 @@ def gen_cases(rng, tier):
             items.insert(rng.randint(0, len(items)), it)
         cls = ("io" + ("-junk" if any(i[0] == "Junk" for i in items) else "") + ("-badkv" if any(i[0] == "BadKV" for i in items) else "")
                + ("-bad3" if any(i[0] == "Bad3" for i in items) else "") + ("-longname" if any(i[0] == "KV" and " " in i[1] for i in items) else ""))
-        cases.append({"kind": "io", "cls": cls if items else "trivial", "items": items})
+        case = {"kind": "io", "cls": cls if items else "trivial", "items": items}
+        if items and rng.random() < 0.2:
+            case["moved"] = True
+            case["cls"] = cls + "-moved"
+        cases.append(case)
     for _ in range(n_io // 3):
         content = rng.choice([b"", b"\n", b"rchar: 1\nwchar 2\n", b"rchar: 1: 2\n", b"rchar:  5\n", b"rchar: 5 \n  wchar: 6\n",
                               b"rchar: -5\nwchar: +6\nsyscr: 1_0\nsyscw: 4\nread_bytes: 5\nwrite_bytes: 6\n",
@@ -150,6 +160,8 @@ def _paths(e, base):
     raise ValueError(k)
 
 
+DECOY_IO = (b"rchar: 424242\nwchar: 424242\nsyscr: 424242\nsyscw: 424242\nread_bytes: 424242\nwrite_bytes: 424242\n"
+            b"cancelled_write_bytes: 0\n")
 BASE = "/pvbase"  # placeholder replaced by the worker's real directory; same length irrelevant to the model
 
 
@@ -166,6 +178,9 @@ def coq_term(case):
             es.append("(Build_kfd %s %s %s %s %s %s %s %s)" % (
                 G.by(str(e["fd"])), G.by(raw), G.bo(ex), G.bo(isreg), G.by(str(e["pos"])), G.by("%o" % e["flags"]),
                 G.by(e["extra"]), cl))
+        if case.get("moved"):
+            return "run_table_moved %s %s %s %s" % (G.lst(es), G.bo(case["alive"]), G.by(str(case["moved"]["pos"])),
+                                                    G.by("%o" % case["moved"]["flags"]))
         return "run_table %s %s" % (G.lst(es), G.bo(case["alive"]))
     if k == "rawinfo":
         ent = "(Build_fdent %s (LTarget %s false) IsReg (FContent %s))" % (
@@ -180,6 +195,8 @@ def coq_term(case):
                 its.append("(Bad3 %s %s %s)" % (G.by(it[1]), G.by(it[2]), G.by(it[3])))
             else:
                 its.append("(%s %s %s)" % (it[0], G.by(it[1]), G.by(it[2])))
+        if case.get("moved"):
+            return "run_io_moved %s %s %s" % (G.bo(STRICT_IO), G.lst(its), G.by(DECOY_IO))
         return "run_io %s %s" % (G.bo(STRICT_IO), G.lst(its))
     if k == "rawio":
         return "run_io_raw %s %s" % (G.bo(STRICT_IO), G.by(bytes.fromhex(case["content"])))
@@ -255,6 +272,17 @@ def impl_run(case, coq, env):
     pid = 4242
     fp.add(pid)
     p = psutil.Process(pid)
+    fp2 = None
+    if case.get("moved"):
+        import shutil
+        root2 = os.path.join(env["work"], "proc2")
+        shutil.rmtree(root2, ignore_errors=True)
+        fp2 = fakeproc.FakeProc(root2)
+        fp2.add(pid)
+
+    def move_mount():
+        if fp2 is not None:
+            psutil.PROCFS_PATH = fp2.root
 
     def conv_rows(rows):
         return [[B(os.fsencode(r.path).replace(real_base.encode(), base.encode())), r.fd, r.position, B(r.mode), r.flags] for r in rows]
@@ -290,6 +318,9 @@ def impl_run(case, coq, env):
                 ipath = fp.write(pid, "fdinfo/%d" % e["fd"], content)
                 if e["closing"] == "fdinfo_read":
                     fail_read.add(ipath)
+            if fp2 is not None:
+                os.symlink(os.fsencode(cut), os.fsencode(os.path.join(fp2.root, str(pid), "fd", str(e["fd"]))))
+                fp2.write(pid, "fdinfo/%d" % e["fd"], b"pos:\t%d\nflags:\t0%o\n" % (case["moved"]["pos"], case["moved"]["flags"]))
         real_readlink = os.readlink
 
         def fake_readlink(path, *a, **kw):
@@ -346,6 +377,7 @@ def impl_run(case, coq, env):
                 return r
             os.listdir = fake_listdir
             try:
+                move_mount()
                 res = outcome(p.open_files, conv_rows)
                 nfds = p.num_fds()
             finally:
@@ -360,6 +392,9 @@ def impl_run(case, coq, env):
     if k in ("io", "rawio"):
         content = unB(coq["printed"]) if k == "io" else bytes.fromhex(case["content"])
         fp.write(pid, "io", content)
+        if fp2 is not None:
+            fp2.write(pid, "io", DECOY_IO)
+            move_mount()
         return outcome(p.io_counters, lambda r: [r.read_count, r.write_count, r.read_bytes, r.write_bytes, r.read_chars, r.write_chars])
     raise ValueError(k)
 
